@@ -27,7 +27,8 @@ def signatures(max_pos=2):
     for n in range(max_pos + 1):
         for args in itertools.product(range(len(ALPHA)), repeat=n):
             for kwn in range(len(NAMES) + 1):
-                for names in itertools.combinations(range(len(NAMES)), kwn):
+                # keyword arguments in EVERY call order (the key must not depend on it)
+                for names in itertools.permutations(range(len(NAMES)), kwn):
                     for vals in itertools.product(range(len(ALPHA)), repeat=kwn):
                         sigs.append((args, tuple(zip(names, vals))))
     return sigs
@@ -98,13 +99,23 @@ def run(tier, seed, rng, known, replay):
                                    'what': 'args_to_key differs from the model on %s: %s vs %s' % (l[:80], e, g)})
     # acceptor on the real keys: distinct calls must not share a key
     collisions = 0
+
+    def same_call(s1, s2):
+        return s1[0] == s2[0] and sorted(s1[1]) == sorted(s2[1])
     for typed in (0, 1):
         seen = {}
+        by_call = {}
         for sig in sigs:
             a, kw = real_call_args(sig)
             key = args_to_key(('f',), a, kw, bool(typed), ())
             rk = (render_real_key(key, 1))
-            if rk in seen and seen[rk] != sig:
+            canon = (sig[0], tuple(sorted(sig[1])))
+            if canon in by_call and by_call[canon][0] != rk and len(violations) < 3:
+                msg = 'the same call f%r gets two different keys depending on the order its keyword arguments are written in: %s vs %s (typed=%d) - a repeated call re-runs the function' % (
+                    (a, kw), by_call[canon][0], rk, typed)
+                violations.append({'replay': {'property': 'C16', 'kind': 'acceptor', 'acceptor': msg}, 'found_input': True, 'what': msg})
+            by_call.setdefault(canon, (rk, sig))
+            if rk in seen and not same_call(seen[rk], sig):
                 collisions += 1
                 msg = 'calls f%r and f%r share the cache key %s (typed=%d)' % (real_call_args(seen[rk]), (a, kw), rk, typed)
                 k = base.match_known(known, {'cfg': {}}, None, 'D14-probe ' + msg) if (
